@@ -12,6 +12,7 @@ with the CSV (1e-12 relative: pandas' float parser is a named oracle).
 """
 import copy
 import csv
+import json
 import math
 import os
 import tempfile
@@ -43,7 +44,7 @@ RULE = ("output sequences of length <= 8 (+ overshoot of the batch) x all six re
         "single / multi(2,3) objective x workers 1-4 x 1-2 search() calls; structured patterns: failure first, all failed, first call all failed, "
         "NaN/inf scalars; non-trivial = at least one failure and one success, or metadata key sets that differ between jobs")
 
-F_FIXED, F_PINNED, F_ORACLE, F_PUBMD = 401, 402, 403, 404
+F_FIXED, F_PINNED, F_ORACLE, F_PUBMD, F_MULTI = 401, 402, 403, 404, 405
 SYS = "\x00sys"
 SYS_KEYS = ("timestamp_submit", "timestamp_gather")
 
@@ -55,13 +56,23 @@ def py_number(v, pytype):
     if isinstance(v, str):
         x = float(v)  # "nan" | "inf" | "-inf"
         return np.float64(x) if pytype.startswith("np") else x
-    if pytype == "int" and float(v) == int(v):
+    if isinstance(v, bool):
+        return v
+    if isinstance(v, int) and abs(v) >= 2 ** 62:
+        return v                      # a python integer beyond int64 (dict form keeps it, plain form goes through float())
+    if pytype == "int" and abs(v) < 2 ** 62 and float(v) == int(v):
         return int(v)
-    if pytype == "npint" and float(v) == int(v):
+    if pytype == "npint" and abs(v) < 2 ** 62 and float(v) == int(v):
         return np.int64(int(v))
     if pytype == "npfloat":
         return np.float64(v)
     return float(v)
+
+
+def number_cell(v, pytype, through_float):
+    """The cell a numeric objective must show: the plain scalar forms go through float(output), the others are kept."""
+    val = py_number(v, pytype)
+    return ("N", Fraction(float(val))) if through_float else value_cell(val)
 
 
 def build_obj(o, pytype):
@@ -98,69 +109,145 @@ def is_failure_spec(spec):
 
 
 # ------------------------------------------------------------------ running the implementation
-def run_impl(case):
-    """Returns dict(received, returned(order of completion), dumps, calls=[outcome...], csv=(header, rows)|None, dfs)."""
-    warnings.filterwarnings("ignore")
-    from deephyper.evaluator import Evaluator
-    from deephyper.hpo import HpProblem, RandomSearch
+def _plain(v):
+    import numpy as np
 
-    outs = case["outs"]
-    received, finished = {}, []
+    if isinstance(v, (bool, np.bool_)):
+        return bool(v)
+    if isinstance(v, np.integer):
+        return int(v)
+    if isinstance(v, np.floating):
+        return float(v)
+    if isinstance(v, (int, float)):
+        return v
+    return str(v)
 
-    async def run(job):
-        idx = int(str(job.id).split(".")[-1])
-        received[idx] = dict(job.parameters)
-        out = build_output(outs[idx % len(outs)])
-        finished.append(idx)
-        return out
+
+def replay(job, side=None, outs=None):
+    """The run-function (module level: the process backend pickles it): records what it received, replays the output."""
+    idx = int(str(job.id).split(".")[-1])
+    out = build_output(outs[idx % len(outs)])
+    rec = json.dumps(dict(idx=idx, params={k: _plain(v) for k, v in job.parameters.items()})) + "\n"
+    fd = os.open(side, os.O_WRONLY | os.O_APPEND | os.O_CREAT)
+    try:
+        os.write(fd, rec.encode())
+    finally:
+        os.close(fd)
+    return out
+
+
+async def replay_async(job, side=None, outs=None):
+    return replay(job, side=side, outs=outs)
+
+
+CATS = ["a", "b c", "q,r", 'say "hi"', "line\nbreak", " sp "]
+
+
+def make_problem():
+    from deephyper.hpo import HpProblem
 
     problem = HpProblem()
     problem.add_hyperparameter((0.0, 10.0), "x")
     problem.add_hyperparameter((0, 10), "k")
-    problem.add_hyperparameter(["a", "b"], "c")
-    evaluator = Evaluator.create(run, method="serial", method_kwargs={"num_workers": case["workers"]})
-    dumps = []
-    orig_dump = evaluator.dump_jobs_done_to_csv
+    problem.add_hyperparameter(CATS, "c")
+    problem.add_hyperparameter([True, False], "b")
+    return problem
 
-    def dump(*a, **k):
-        pre = [int(str(j.id).split(".")[-1]) for j in evaluator.jobs_done]
-        flush = bool(k.get("flush", a[2] if len(a) > 2 else False))
-        try:
-            return orig_dump(*a, **k)
-        finally:
-            dumps.append(dict(pre=pre, flush=flush, post=[int(str(j.id).split(".")[-1]) for j in evaluator.jobs_done], call=len(calls)))
 
-    evaluator.dump_jobs_done_to_csv = dump
-    calls, dfs = [], []
-    res = dict(received=received, finished=finished, dumps=dumps, calls=calls, dfs=dfs, csv=None, status={})
+def run_impl(case):
+    """One or two Search objects, one after the other, on ONE log_dir (one evaluator or a new one for the second search).
+    Returns one observation per Search object: dict(received, finished, dumps, calls, dfs, csv, status, fail_text)."""
+    warnings.filterwarnings("ignore")
+    from deephyper.evaluator import Evaluator
+    from deephyper.hpo import RandomSearch
+
+    backend = case.get("backend", "serial")
+    plan = [dict(calls=case["calls"], new_evaluator=True)]
+    if case.get("second"):
+        plan.append(dict(calls=case["second"]["calls"], new_evaluator=not case["second"].get("reuse")))
+    problem = make_problem()
+    tables = []
     with tempfile.TemporaryDirectory(prefix="vp_c04_") as d:
-        search = RandomSearch(problem, evaluator, random_state=case.get("seed", 1), log_dir=d)
-        for n in case["calls"]:
+        log_dir = os.path.join(d, "log")
+        evaluator, side, cur = None, None, [None]
+        evaluators = []
+        for si, pl in enumerate(plan):
+            if pl["new_evaluator"]:
+                side = os.path.join(d, "side%d.jsonl" % si)
+                evaluator = Evaluator.create(replay_async if backend == "serial" else replay, method=backend,
+                                             method_kwargs={"num_workers": case["workers"], "run_function_kwargs": dict(side=side, outs=case["outs"])})
+                evaluators.append(evaluator)
+                orig_dump = evaluator.dump_jobs_done_to_csv
+
+                def dump(*a, _ev=evaluator, _orig=orig_dump, **k):
+                    pre = [int(str(j.id).split(".")[-1]) for j in _ev.jobs_done]
+                    flush = bool(k.get("flush", a[2] if len(a) > 2 else False))
+                    try:
+                        return _orig(*a, **k)
+                    finally:
+                        cur[0]["dumps"].append(dict(pre=pre, flush=flush, post=[int(str(j.id).split(".")[-1]) for j in _ev.jobs_done], call=len(cur[0]["calls"])))
+
+                evaluator.dump_jobs_done_to_csv = dump
+            obs = dict(dumps=[], calls=[], dfs=[], csv=None, status={}, side=side, evaluator=evaluator, reuse=not pl["new_evaluator"])
+            cur[0] = obs
+            tables.append(obs)
+            before = set(os.listdir(log_dir)) if os.path.isdir(log_dir) else set()
             try:
-                df = search.search(max_evals=n)
-                calls.append("none" if df is None else "ok")
-                dfs.append(df)
+                search = RandomSearch(problem, evaluator, random_state=case.get("seed", 1) + si, log_dir=log_dir)
+                obs["renamed"] = sorted(set(os.listdir(log_dir)) - before - {"context.yaml"})
+                for ci, n in enumerate(pl["calls"]):
+                    if ci and case.get("user_dump"):
+                        # the user dumps by hand between two calls (nothing is pending: must change nothing)
+                        evaluator.dump_jobs_done_to_csv(log_dir, flush=bool(ci % 2))
+                    df = search.search(max_evals=n)
+                    obs["calls"].append("none" if df is None else "ok")
+                    obs["dfs"].append(df)
             except Exception as e:  # the property: search() returns the table
-                calls.append("raised:" + type(e).__name__)
-                res["exc"] = "%s: %s" % (type(e).__name__, str(e)[:300])
-                dfs.append(None)
+                obs["calls"].append("raised:" + type(e).__name__)
+                import traceback
+
+                obs["exc"] = "%s: %s | %s" % (type(e).__name__, str(e)[:300], traceback.format_exc()[-700:])
+                obs["dfs"].append(None)
                 break
-        path = os.path.join(d, "results.csv")
-        if os.path.exists(path):
-            with open(path, newline="") as f:
-                rows = list(csv.reader(f))
-            res["csv"] = (rows[0], rows[1:]) if rows else ([], [])
-        res["files"] = sorted(os.listdir(d))
-    for j in evaluator.jobs:
-        res["status"][int(str(j.id).split(".")[-1])] = j.status.name
-    res["fail_text"] = type(evaluator).FAIL_RETURN_VALUE
-    return res
+        # the table of the last search is results.csv, the table of an earlier one the file it was renamed to
+        for ti, obs in enumerate(tables):
+            if ti + 1 < len(tables):
+                names = tables[ti + 1].get("renamed", [])
+                path = os.path.join(log_dir, names[0]) if len(names) == 1 else None
+                obs["renamed_to"] = names
+            else:
+                path = os.path.join(log_dir, "results.csv")
+            if path is not None and os.path.exists(path):
+                with open(path, newline="") as f:
+                    rows = list(csv.reader(f))
+                obs["csv"] = (rows[0], rows[1:]) if rows else ([], [])
+        for ev in evaluators:
+            ex = getattr(ev, "executor", None)
+            if ex is not None:
+                ex.shutdown(wait=False, cancel_futures=True)
+        # what the run-functions recorded
+        for obs in tables:
+            recs = [json.loads(ln) for ln in open(obs["side"])] if os.path.exists(obs["side"]) else []
+            mine = set(i for dmp in obs["dumps"] for i in dmp["pre"])
+            obs["received"] = {r["idx"]: r["params"] for r in recs if r["idx"] in mine}
+            obs["finished"] = [r["idx"] for r in recs if r["idx"] in mine]
+            obs["recorded"] = [r["idx"] for r in recs]
+            for j in obs["evaluator"].jobs:
+                i = int(str(j.id).split(".")[-1])
+                if i in mine:
+                    obs["status"][i] = j.status.name
+            obs["fail_text"] = type(obs["evaluator"]).FAIL_RETURN_VALUE
+            del obs["evaluator"]
+    # every evaluation that returned belongs to exactly one table (a job that was never dumped has no row anywhere)
+    return tables
 
 
 # ------------------------------------------------------------------ texts / numbers -> tokens
 def parse_text(t):
     if t == "":
         return ("E",)
+    if t.lstrip("-").isdigit() and t.count("-") <= 1 and t.isascii():
+        return ("N", Fraction(int(t)))    # integer text: exact (python integers beyond 2^53 are written digit by digit)
     try:
         x = float(t)
     except ValueError:
@@ -174,6 +261,8 @@ def value_cell(v):
     """The cell a python value must show."""
     import numpy as np
 
+    if v is None:
+        return ("E",)                     # csv writes None as the empty string
     if isinstance(v, (bool, np.bool_)):
         return ("S", str(bool(v)))
     if isinstance(v, (int, np.integer)):
@@ -252,6 +341,16 @@ def spec_model(spec):
     return o, md, md2, form
 
 
+def obj_numbers(spec):
+    """The exact numbers the objective cell(s) must show."""
+    o, form, pt = spec["obj"], spec["form"], spec.get("pytype", "float")
+    if "n" in o and not isinstance(o["n"], str):
+        return [number_cell(o["n"], pt, form in ("plain", "prof"))[1]]
+    if "t" in o:
+        return [number_cell(v, pt, False)[1] for v in o["t"]]
+    return []
+
+
 def enc_job(idx, case, obs, tok, den):
     spec = case["outs"][idx % len(case["outs"])]
     o, md, md2, form = spec_model(spec)
@@ -259,11 +358,11 @@ def enc_job(idx, case, obs, tok, den):
         if isinstance(o["n"], str):
             robj = [0, [{"nan": 1, "inf": 2, "-inf": 3}[o["n"]]]]
         else:
-            robj = [0, [0, int(Fraction(float(o["n"])) * den)]]
+            robj = [0, [0, int(obj_numbers(spec)[0] * den)]]
     elif "s" in o:
         robj = [1, tok.text(o["s"])]
     else:
-        robj = [2, [int(Fraction(float(v)) * den) for v in o["t"]]]
+        robj = [2, [int(x * den) for x in obj_numbers(spec)]]
     emd = lambda m: [[tok.key(k), enc_cell(c, tok, den)] for k, c in m]
     if form in ("plain",):
         rplain = [0, robj]
@@ -282,12 +381,8 @@ def collect_numbers(case, obs, tok):
     for idx in obs["finished"]:
         tok.nums.add(Fraction(idx))
         spec = case["outs"][idx % len(case["outs"])]
-        o = spec["obj"]
-        if "n" in o and not isinstance(o["n"], str):
-            tok.nums.add(Fraction(float(o["n"])))
-        if "t" in o:
-            for v in o["t"]:
-                tok.nums.add(Fraction(float(v)))
+        for x in obj_numbers(spec):
+            tok.nums.add(x)
         for m in (spec.get("md") or {}, spec.get("md2") or {}):
             for k, c in md_cells(m):
                 note_nums(c, tok)
@@ -399,7 +494,9 @@ def features(case, obs):
             first_order.append(i)
     call1 = set(i for d in obs["dumps"] if d["call"] == 0 for i in d["pre"])
     multi = any("t" in spec(i)["obj"] for i in obs["finished"])
+    ints = [v for o in outs for v in (o["obj"].get("t", []) + [o["obj"].get("n", 0)]) if isinstance(v, int) and not isinstance(v, bool)]
     return dict(
+        big_int=any(abs(v) >= 2 ** 63 for v in ints),
         kind="multi" if multi else "single",
         fail_first=bool(first_order) and is_failure_spec(spec(first_order[0])),
         first_call_all_failed=bool(call1) and all(is_failure_spec(spec(i)) for i in call1) and len(obs["calls"]) > 1,
@@ -407,7 +504,39 @@ def features(case, obs):
 
 
 def check(case):
-    obs = run_impl(case)
+    tables = run_impl(case)
+    prev, out = [], None
+    for ti, obs in enumerate(tables):
+        r, mevs = check_table(case, obs, prev if obs["reuse"] else [])
+        r["desc"] = r.get("desc", []) + ["backend=" + case.get("backend", "serial"), "searches=%d" % len(tables)] + \
+            (["second=" + ("same_evaluator" if case["second"].get("reuse") else "new_evaluator")] if case.get("second") else []) + \
+            (["user_dump"] if case.get("user_dump") else [])
+        if not r["ok"]:
+            r["sig"]["table"] = ti
+            if isinstance(r.get("detail"), dict):
+                r["detail"]["table"] = ti
+            return r
+        prev = (prev if obs["reuse"] else []) + [mevs]
+        out = r if out is None else dict(out, nontrivial=out["nontrivial"] or r["nontrivial"], desc=out["desc"] + [x for x in r["desc"] if x not in out["desc"]])
+    # every evaluation whose run-function returned is a job of exactly one table
+    sides = {}
+    for obs in tables:
+        sides.setdefault(obs["side"], [set(obs["recorded"]), set()])[1].update(obs["finished"])
+    if all(c == "ok" or c == "none" for obs in tables for c in obs["calls"]):
+        for side, (rec, fin) in sides.items():
+            if rec != fin:
+                return dict(out, ok=False, clause="evaluation_never_dumped", sig=dict(out["sig"], clause="evaluation_never_dumped"),
+                            detail=dict(recorded=sorted(rec), in_tables=sorted(fin)))
+    return out
+
+
+def check_table(case, obs, prev):
+    res, mevs = check_table_in(case, obs, prev)
+    return res, mevs
+
+
+def check_table_in(case, obs, prev):
+    mevs = []
     feats = features(case, obs)
     fin = obs["finished"]
     nfail = sum(is_failure_spec(case["outs"][i % len(case["outs"])]) for i in fin)
@@ -419,17 +548,17 @@ def check(case):
                      "fail_first=%s" % feats["fail_first"], "failures=%s" % ("none" if nfail == 0 else "all" if nfail == len(fin) else "some"),
                      "dumps=%d" % len(obs["dumps"])] + ["form=" + f for f in forms])
     if not isinstance(obs["fail_text"], str) or not obs["fail_text"].startswith("F"):
-        return dict(res, ok=False, kind="corr", clause="fail_marker", detail=repr(obs["fail_text"]))
+        return dict(res, ok=False, kind="corr", clause="fail_marker", detail=repr(obs["fail_text"])), mevs
     raised = [c for c in obs["calls"] if c.startswith("raised")]
     if raised:
         res["sig"]["raised"] = raised[0][7:]
     if len(set(fin)) != len(fin) or sorted(obs["status"]) != sorted(fin):
-        return dict(res, ok=False, kind="corr", clause="harness_bookkeeping", detail=dict(finished=fin, status=obs["status"]))
+        return dict(res, ok=False, kind="corr", clause="harness_bookkeeping", detail=dict(finished=fin, status=obs["status"])), mevs
     tok = Tokens(obs["fail_text"])
     collect_numbers(case, obs, tok)
     evs = events_of(obs)
     if evs is None:
-        return dict(res, ok=False, kind="corr", clause="jobs_done_not_a_queue", detail=obs["dumps"])
+        return dict(res, ok=False, kind="corr", clause="jobs_done_not_a_queue", detail=obs["dumps"]), mevs
     m = model()
     # ---- implementation's table
     if obs["csv"] is None:
@@ -441,6 +570,7 @@ def check(case):
                 note_nums(c, tok)
     den = tok.scale()
     jobs = {i: enc_job(i, case, obs, tok, den) for i in fin}
+    mevs = [[[jobs[i] for i in new], fl] for new, fl in evs]
     if obs["csv"] is not None:
         imp_h = [col_of(nm, tok) for nm in header]
         imp_rows = [[enc_cell(c, tok, den) for c in r] for r in cells]
@@ -449,7 +579,7 @@ def check(case):
                   returned={i: case["outs"][i % len(case["outs"])] for i in fin}, received={i: {k: str(v) for k, v in obs["received"][i].items()} for i in fin})
     if obs["csv"] is None:
         if fin:
-            return dict(res, ok=False, clause="no_table", detail=detail)
+            return dict(res, ok=False, clause="no_table", detail=detail), mevs
     else:
         ok, clause, bad = m.call(F_ORACLE, [[jobs[i] for i in fin], imp_h, imp_rows])
         if not ok:
@@ -463,14 +593,14 @@ def check(case):
                 name += ":objective_columns" if got != sorted(set(tuple(c) for c in expected_objcols(case, fin))) else ":columns"
             res["sig"]["clause"] = name
             detail["bad_cells"] = [(r, header[c] if c < len(header) else c) for r, c in bad[:12]]
-            return dict(res, ok=False, clause=name, detail=detail)
+            return dict(res, ok=False, clause=name, detail=detail), mevs
     if raised:
-        return dict(res, ok=False, clause="search_" + raised[0], detail=detail)
+        return dict(res, ok=False, clause="search_" + raised[0], detail=detail), mevs
     # ---- DataFrame returned by the last call vs the CSV (pandas' parser is the oracle, 1e-12)
     df = obs["dfs"][-1] if obs["dfs"] else None
     if obs["csv"] is not None:
         if df is None:
-            return dict(res, ok=False, clause="no_dataframe", detail=detail)
+            return dict(res, ok=False, clause="no_dataframe", detail=detail), mevs
         dcols, drows = df_cells(df)
         hdr, raw = obs["csv"]
         same = dcols == hdr and len(drows) == len(raw)
@@ -481,27 +611,26 @@ def check(case):
                     same = False
                     break
         if not same:
-            return dict(res, ok=False, clause="dataframe_vs_csv", detail=dict(detail, df_columns=dcols, df_rows=repr(drows)[:2000]))
+            return dict(res, ok=False, clause="dataframe_vs_csv", detail=dict(detail, df_columns=dcols, df_rows=repr(drows)[:2000])), mevs
     elif df is not None:
-        return dict(res, ok=False, clause="dataframe_without_file", detail=detail)
+        return dict(res, ok=False, clause="dataframe_without_file", detail=detail), mevs
     # ---- correspondence with the model of the (repaired) dump on the observed batching
-    mevs = [[[jobs[i] for i in new], fl] for new, fl in evs]
-    mod = m.call(F_FIXED, mevs)
+    mod = m.call(F_MULTI, prev + [mevs])[-1]
     if obs["csv"] is None:
         if mod[0] != 0:
-            return dict(res, ok=False, kind="corr", clause="table_presence", detail=dict(detail, model=mod))
-        return res
+            return dict(res, ok=False, kind="corr", clause="table_presence", detail=dict(detail, model=mod)), mevs
+        return res, mevs
     if mod[0] != 2:
-        return dict(res, ok=False, kind="corr", clause="table_presence", detail=dict(detail, model=mod))
+        return dict(res, ok=False, kind="corr", clause="table_presence", detail=dict(detail, model=mod)), mevs
     a, b = canon_table(imp_h, imp_rows), canon_table(mod[1], mod[2])
     if a[0] != b[0]:
-        return dict(res, ok=False, kind="corr", clause="header", detail=dict(detail, impl=a[0], model=b[0]))
+        return dict(res, ok=False, kind="corr", clause="header", detail=dict(detail, impl=a[0], model=b[0])), mevs
     if a[1] != b[1]:
         diff = {k: (a[1].get(k), b[1].get(k)) for k in set(a[1]) | set(b[1]) if a[1].get(k) != b[1].get(k)}
-        return dict(res, ok=False, kind="corr", clause="rows", detail=dict(detail, diff=repr(diff)[:3000]))
+        return dict(res, ok=False, kind="corr", clause="rows", detail=dict(detail, diff=repr(diff)[:3000])), mevs
     if a[2] != b[2] and selected_values(imp_h, imp_rows) != selected_values(mod[1], mod[2]):
-        return dict(res, ok=False, kind="corr", clause="pareto_values", detail=dict(detail, impl=a[2], model=b[2]))
-    return res
+        return dict(res, ok=False, kind="corr", clause="pareto_values", detail=dict(detail, impl=a[2], model=b[2])), mevs
+    return res, mevs
 
 
 def expected_objcols(case, fin):
@@ -518,11 +647,21 @@ MD_STR = ["s", "t1", "u v", "q,r", 'say "hi"', "x:y"]
 LABELS = ["F", "F_a", "F_timeout", "F_b c", "Fail,1"]
 
 
+EDGE = [0.0, -0.0, 1e300, -1e300, 5e-324, 2.2250738585072014e-308, 1.7976931348623157e308, 1.0, 1.0000000000000002, 0.9999999999999999,
+        123456789.12345679, 123456789.12345678, 9007199254740993, 2 ** 63 + 1, -(2 ** 64), 1e-310]
+EDGE_MULTI = [0.0, -0.0, 1e300, -1e300, 5e-324, 1e-310, 1.0, 4503599627370497.0]   # exact through pandas (integers beyond 2^53 drift by an ulp there)
+MD_ODD = [0, 0.0, "", None, False, True, [1, 2], {"k": 1}, "a\nb", [], "0"]
+
+
 def gen_number(rng, style):
     if style == "grid":
         return rng.randint(-16, 16) / 4.0
     if style == "int":
         return float(rng.randint(-5, 5))
+    if style == "edge":
+        return rng.choice(EDGE)
+    if style == "edge_multi":
+        return rng.choice(EDGE_MULTI)
     return rng.choice([rng.uniform(-5, 5), rng.uniform(-1e-3, 1e-3), rng.uniform(-1e6, 1e6), 0.1, 1 / 3])
 
 
@@ -532,7 +671,7 @@ def gen_md(rng):
     md = {}
     for k in keys:
         r = rng.random()
-        md[k] = rng.choice(MD_STR) if r < 0.35 else rng.randint(-3, 9) if r < 0.7 else gen_number(rng, "float")
+        md[k] = rng.choice(MD_STR) if r < 0.3 else rng.randint(-3, 9) if r < 0.55 else rng.choice(MD_ODD) if r < 0.8 else gen_number(rng, "float")
     return md
 
 
@@ -541,11 +680,15 @@ def gen_out(rng, multi, fail, style):
         r = rng.random()
         obj = {"s": rng.choice(LABELS)} if r < 0.75 else {"n": rng.choice(["nan", "inf", "-inf"])}
     elif multi:
-        obj = {"t": [gen_number(rng, style) for _ in range(multi)], "aslist": rng.random() < 0.4}
+        obj = {"t": [gen_number(rng, "edge_multi" if style == "edge" else style) for _ in range(multi)], "aslist": rng.random() < 0.4}
     else:
         obj = {"n": gen_number(rng, style)}
     form = rng.choice(["plain", "plain", "dict", "dictmd", "prof", "profdict", "profdictmd"])
     spec = dict(form=form, obj=obj, pytype=rng.choice(["float", "float", "int", "npfloat", "npint"]))
+    if not fail and not multi and rng.random() < 0.06:
+        # a python bool is a Number: falsy / truthy objective through the scalar forms (float(output))
+        spec["obj"], spec["form"], form = {"n": rng.random() < 0.5}, rng.choice(["plain", "prof"]), None
+        form = spec["form"]
     if form in ("dictmd", "profdictmd"):
         spec["md"] = gen_md(rng)
     if form.startswith("prof"):
@@ -568,7 +711,7 @@ def gen_case(rng, pattern=None, small=False):
     n = total + 2 * workers * ncalls
     pattern = pattern or rng.choice(["mixed", "mixed", "mixed", "fail_first", "all_fail", "no_fail", "call1_fail", "late_success"])
     pf = rng.choice([0.2, 0.5, 0.8])
-    style = rng.choice(["grid", "grid", "int", "float"])
+    style = rng.choice(["grid", "grid", "int", "float", "edge"])
     outs = []
     for i in range(n):
         if pattern == "mixed":
@@ -584,7 +727,14 @@ def gen_case(rng, pattern=None, small=False):
         else:  # late_success: only the last evaluations succeed
             fail = i < total - 1
         outs.append(gen_out(rng, multi, fail, style))
-    return dict(workers=workers, calls=calls, outs=outs, seed=rng.randint(0, 10 ** 6))
+    case = dict(workers=workers, calls=calls, outs=outs, seed=rng.randint(0, 10 ** 6))
+    r = rng.random()
+    case["backend"] = "serial" if r < 0.8 else "thread"     # (the process backend forks from a threaded runner worker: it can dead-lock; not used)
+    if ncalls == 2 and rng.random() < 0.3:
+        case["user_dump"] = True
+    if rng.random() < 0.15:
+        case["second"] = dict(calls=[rng.randint(1, 3)], reuse=rng.random() < 0.5)
+    return case
 
 
 def gen(count):
